@@ -40,4 +40,50 @@ theorem oidFromDER_canonical (der : List UInt8) (hlen : der.length < W) (s : Lis
   | err => rw [hd] at h; cases h
   | oob => rw [hd] at h; cases h
 
+/-- ROUND TRIP (OID): whatever derOIDEnc produces for a string decodes back to that string, with any
+    continuation (oidIsValid strings: 32-bit arcs in canonical decimal, d1 ≤ 2, d2 < 40 unless d1 = 2) -/
+theorem derOID_roundtrip (s e rest : List UInt8) (he : derOIDEnc s = .ok e) (hlen : 13 + e.length + rest.length < W) :
+    derOIDDec (e ++ rest) = .ok (s, e.length) := by
+  have hv : oidIsValid s = true := by
+    unfold derOIDEnc at he
+    by_cases hv : oidIsValid s = true
+    · exact hv
+    · have hf : oidIsValid s = false := by simpa using hv
+      rw [hf] at he; simp at he
+  obtain ⟨e', he', hd⟩ := derOID_roundtrip' s hv rest (by
+    intro V hV
+    rw [he] at hV
+    have : V.length ≤ e.length := by
+      unfold derEnc at hV; rw [derTEnc_ok 6 (by decide)] at hV
+      injection hV with hV; rw [hV]; simp; omega
+    omega)
+  rw [he] at he'; cases he'; exact hd
+example : derOIDEnc (cstr "2.999.4294967295") = .ok [0x06, 0x07, 0x88, 0x37, 0x8F, 0xFF, 0xFF, 0xFF, 0x7F] := by
+  decide +kernel
+
+/-- derOIDDec2 (the matcher used by the containers) accepts only the code of the given string:
+    acceptance implies that derOIDDec decodes the same octets to exactly `oid`, hence the accepted octets
+    are derOIDEnc oid -/
+theorem derOIDDec2_canonical (der oid : List UInt8) (hlen : der.length < W) (hstr : ∀ b ∈ oid, b ≠ 0) (c : Nat)
+    (h : derOIDDec2 der oid = .ok c) : derOIDDec der = .ok (oid, c) ∧ derOIDEnc oid = .ok (der.take c) := by
+  have hd := derOIDDec2_eq_dec der oid hlen hstr c h
+  exact ⟨hd, derOIDDec_canonical' der hlen oid c hd⟩
+example : derOIDDec2 [0x06, 0x03, 0x2A, 0x92, 0x29] (cstr "1.2.2345") = .ok 5 := by decide +kernel
+
+/-! ### SEQ anchors -/
+
+/-- Start + content + Stop writes exactly derEnc tag content after the prefix -/
+theorem derTSEQEnc_correct (pre content : List UInt8) (tag : Nat) (a : Anchor) (e0 : List UInt8)
+    (hs : derTSEQEncStart pre.length tag = .ok (a, e0)) (htag : tag < U32) (hW : pre.length + content.length + 16 < W) :
+    ∃ E, derEnc tag content = .ok E ∧
+      derTSEQEncStop (pre ++ e0 ++ content) a = .ok (E.length - e0.length - content.length, pre ++ E) :=
+  derTSEQEnc_spec pre content tag a e0 hs htag hW
+example : derTSEQEncStart 2 0x30 = .ok (⟨2, 0x30, 0⟩, [0x30, 0x00]) := by decide +kernel
+
+/-- derTSEQDecStop succeeds only exactly behind the declared content (no wrap for huge lengths) -/
+theorem derTSEQDec_correct (der : List UInt8) (tag : Nat) (a : Anchor) (k pos : Nat)
+    (hs : derTSEQDecStart der tag = .ok (a, k)) (hstop : derTSEQDecStop pos a = .ok ()) :
+    pos = k + a.len ∧ a.tag = tag ∧ k ≤ der.length := derTSEQDec_spec der tag a k pos hs hstop
+example : derTSEQDecStop 4 ⟨0, 0x30, 2⟩ = .ok () ∧ derTSEQDecStop 3 ⟨0, 0x30, 2⟩ = .err := by decide +kernel
+
 end Bee2V.C08
